@@ -36,7 +36,7 @@ CHECKS["C01"] = dict(
 CHECKS["C02"] = dict(
     category="model_checking",
     technique="explicit-state search (BX) over all inbound frame histories on real sessions with a non-interference-by-projection oracle, plus deviation-bounded schedule exploration (DX) of concurrent writers",
-    text="Receive side: every frame history up to depth 5 (thorough 6) over {SYN,PSH,FIN} x ids {1,2,3} on a real server session and up to depth 4 (5) over {PSH,FIN,SYNACK,SYN} on a real client session; stream s must observe exactly what it observes when only its own frames are delivered (differential oracle, no hand-written expectation), every byte carries its stream's tag, single-stream histories agree with a reference model. Histories may contain one local operation (the user closes stream 1 or 2 with no read in progress): late frames for the closed stream must not disturb the siblings. Send side: 2-3 concurrent writers on distinct streams, both submission paths and directions, <= 2 (3) deviations; wire frames and peer readers carry only the owner's tag, concurrent opens get distinct ids. Server side: SYN + data of a new stream in one transport read while the handler of an older (open or already finished) stream is sending.",
+    text="Receive side: every frame history up to depth 5 (thorough 6) over {SYN,PSH,FIN} x ids {1,2,3} on a real server session and up to depth 4 (5) over {PSH,FIN,SYNACK,SYN} on a real client session; stream s must observe exactly what it observes when only its own frames are delivered (differential oracle, no hand-written expectation), every byte carries its stream's tag, single-stream histories agree with a reference model. Histories may contain one local operation (the user closes stream 1 or 2 with no read in progress): late frames for the closed stream must not disturb the siblings; on the server also 'the task that accepts new streams has ended' (callback channel closed): later SYNs cannot be handed out, existing streams are not concerned. Send side: 2-3 concurrent writers on distinct streams, both submission paths and directions, <= 2 (3) deviations; wire frames and peer readers carry only the owner's tag, concurrent opens get distinct ids. Server side: SYN + data of a new stream in one transport read while the handler of an older (open or already finished) stream is sending.",
     note="Trusted: three ids stand for all (dispatch is a map lookup), frames on the receive side are delivered with the session quiescent in between, vpipe environment.",
     design="DESIGN.md §6 C02",
 )
